@@ -232,7 +232,9 @@ def mutate_deep(x, seen=None, depth=0):
 # --------------------------------------------------------------------------------------- operations
 def construct(parser, path, args):
     from midgard.dev import plugins
-    return plugins.call(package_name="midgard.parsers", plugin_name=parser, file_path=path, **(args or {}))
+    # `use_cache` is an argument of parsers.parse_file, not of a parser: the construct / parse path is the uncached one
+    args = {k: v for k, v in (args or {}).items() if k != "use_cache"}
+    return plugins.call(package_name="midgard.parsers", plugin_name=parser, file_path=path, **args)
 
 
 def quiet():
